@@ -504,7 +504,7 @@ def _one(args):
 def _tlc(d, timeout):
     for f in ("QueryPipeline.tla", "QueryPipelineTrace.tla"):
         shutil.copyfile(os.path.join(SPECS, f), os.path.join(d, f))
-    cmd = ["java", "-XX:+UseParallelGC", "-Xmx2g", "-Xss64m", "-Dtlc2.tool.queue.IStateQueue=StateDeque", "-cp", TLC_JAR, "tlc2.TLC",
+    cmd = ["java", "-XX:+UseParallelGC", "-Xmx2g", "-Xss64m", "-Djava.io.tmpdir=" + d, "-Dtlc2.tool.queue.IStateQueue=StateDeque", "-cp", TLC_JAR, "tlc2.TLC",
            "-metadir", os.path.join(d, "m"), "-workers", "1", "-config", "MCQT.cfg", "MCQT.tla"]
     try:
         r = subprocess.run(cmd, cwd=d, capture_output=True, text=True, timeout=timeout)
